@@ -778,6 +778,24 @@ def main():
     else:
         cases = generate(ck)
 
+    if not ck.args.replay:
+        # the hash table at the sizes its own prime table names: probing must end (a step that is a multiple of the table size never does)
+        rc0, out0, err0 = vlib.sh([exe, "hashprimes"], timeout=600)
+        seen_hp = 0
+        for l in out0.splitlines():
+            t = l.split()
+            if t and t[0] == "HASHPRIME":
+                seen_hp += 1
+                ck.evaluated(("hashprime", t[1]), nontrivial=True)
+                if t[-1] != "ok":
+                    ck.violation("hashtable-at-prime-size:" + t[-1],
+                                 "DataHashTable with maxsize %s: %s (keys that collide modulo the table size are added, looked up and removed; "
+                                 "'hang' = add/has did not return within 20 s)" % (t[1], " ".join(t[2:])),
+                                 {"kind": "hashprime", "size": t[1], "line": l, "replay_note": "harness/C19.cpp hashPrimes(): run `C19 hashprimes`"})
+        if seen_hp < 9 or rc0 != 0:
+            ck.violation("hashtable-at-prime-size:incomplete", "the hash-table probe at prime sizes answered %d sizes (rc=%d)" % (seen_hp, rc0), {"kind": "crash"}, no_input=True)
+        ck.cov["hash_table_prime_sizes_probed"] = seen_hp
+
     import threading
     minabs = []
     th = threading.Thread(target=probe_minabs, args=(minabs,))
